@@ -61,6 +61,12 @@ func init() {
 		{ID: "E8.aes.decrypt.encoding", Fn: "crypto.DecryptAES", P: []string{"data", "key"}, Kind: "ret ok", Pat: "ret(conv(string, $dec), nil)", Max: 1,
 			Req: []string{"def($text, base64.RawURLEncoding.DecodeString($data), 0)", "ok(base64.RawURLEncoding.DecodeString($data))", "def($dec, crypto.DecryptBytesAES($text, $key), 0)", "ok(crypto.DecryptBytesAES($text, $key))"}},
 	}
+	for _, o := range obs {
+		if strings.HasPrefix(o.ID, "E1.unmarshal-multi.") {
+			// a decoder that tolerates a mistyped registered claim leaves it at its zero value: every check of C01 then sees "absent"
+			sharedObs["C01"] = append(sharedObs["C01"], o)
+		}
+	}
 	register(&PropSpec{
 		ID: "C12",
 		Explanation: "Decides structurally: no decoder of pkg/oidc, pkg/crypto, pkg/http can panic on its input (unchecked assertions, explicit panics, unproven bounds outside the reviewed table, nullable decode targets, codec recursion: same rules as C09 restricted to the codec packages); mergeAndMarshalClaims decodes the registered JSON over the copy of the custom claims (registered wins) and writes custom claims only in the copy loop before that decode; JWTTokenRequest.MarshalJSON overlays the registered JSON on the private map; every type with a `Claims map[string]any json:\"-\"` field (discovered through go/types, 7 today) has the MarshalJSON/UnmarshalJSON pair calling the helpers with (alias(self), self.Claims) / (data, alias(self), &self.Claims) and the alias types carry no codec methods; unmarshalJSONMulti fails on the first destination that fails; the tolerant decoders accept exactly the documented forms and otherwise return an error or the zero value; AES sealing checks the length before slicing and encrypt/decrypt agree on RawURLEncoding, IV length and CFB mode. Does not decide value equality after a round trip nor 'only under the same key'.",
